@@ -276,8 +276,8 @@ def structFirstUnion : Obj → Bool
   | _ => false
 
 /-- `FieldMeta.__getitem__(cls, val)`: what `Array[val]`, `AnyOf[val, …]`, `Field[val]` make of `val`.
-    On a Structure-first PEP 604 union it calls itself with the unchanged value until the interpreter gives up
-    (finding `pep604-structure-first-nested`). -/
+    (A Structure-first PEP 604 union used to make it call itself forever - finding `pep604-structure-first-nested`,
+    fixed in typedpy 4d54fb6: `convert_field_type_if_possible` converts every `types.UnionType` like `typing.Union`.) -/
 def getItem (tm : TypeMap) (o : Obj) : R FieldDecl :=
   match o with
   | .finst d => .ok d
@@ -285,7 +285,7 @@ def getItem (tm : TypeMap) (o : Obj) : R FieldDecl :=
   | .noneV => .ok .noneF
   /- `Structure in val.__mro__`: `ClassReference(val)` -/
   | .scls d => .ok d
-  | _ => if structFirstUnion o then .error (.other "RecursionError") else getItemFallback tm o (gtli tm o)
+  | _ => getItemFallback tm o (gtli tm o)
 
 /-- `_map_to_field(item)`: the `items=` keyword -/
 def mapToField : Obj → R (Option FieldDecl)
@@ -296,15 +296,15 @@ def mapToField : Obj → R (Option FieldDecl)
   | _ => .error .typeErr
 
 /-- the `items=` keyword of `cls(items=X)`: `_map_to_field` for Array / Set / ImmutableSet / Deque; `Tuple.__init__`
-    has its own conversion, which knows Field classes and instances only (a Structure class is a TypeError there:
-    finding `tuple-items-structure-class`) -/
-def callItem (c : Coll) (o : Obj) : R (Option FieldDecl) :=
-  if c == .tuple && isSclsObj o then .error .typeErr else mapToField o
+    has its own conversion with the same outcome on the modelled vocabulary (a Structure class is wrapped in a
+    ClassReference since typedpy cdab473: former finding `tuple-items-structure-class`) -/
+def callItem (_c : Coll) (o : Obj) : R (Option FieldDecl) := mapToField o
 
 /-- one entry of `Tuple(items=[…])` -/
 def tupleItem : Obj → R FieldDecl
   | .finst d => .ok d
   | .fcls h => defaultDecl h
+  | .scls d => .ok d
   | .noneV => .error (.other "AttributeError")
   | _ => .error .typeErr
 
@@ -667,18 +667,19 @@ def stringAnn (future : Bool) (fs : FieldSp) : Bool := fs.mode == .ann && (futur
     `_evaluate_if_future_annotations` with the module globals and the locals of the frame executing the
     class statement: names of the module, and of the function that directly contains the class, resolve;
     locals of an enclosing function only if that function's code captures them (otherwise NameError, PEP 563).
-    A quoted annotation under the future import is stored as the text of a string literal, evaluates to a
-    `str` again and declares nothing; without the import a string of 50 or more characters is not evaluated
-    at all. -/
+    A quoted annotation under the future import is stored as the text of a string literal and is evaluated twice;
+    every string annotation is evaluated whatever its length (typedpy fix of `quoted-under-future-import` /
+    `quoted-annotation-50`), so quoting does not influence the result. -/
 def elabFieldAt (sc : Scope) (O : Oracles) (tm : TypeMap) (future : Bool) (fs : FieldSp) : R FieldRes :=
-  if fs.mode == .ann && fs.quoted && (future || decide (50 ≤ annLenField fs)) then .ok .dropped
-  else if stringAnn future fs && sc == .enclosing && fs.unresolved then .error (.other "NameError")
+  if stringAnn future fs && sc == .enclosing && fs.unresolved then .error (.other "NameError")
   else elabField O tm future fs
 
 structure ClassSp where
   future : Bool
   fields : List FieldSp
   scope : Scope := .module
+  /-- `_required = [...]` written out in the class body (`none`: not written, typedpy computes it) -/
+  required : Option (List String) := none
 deriving Repr, Inhabited
 
 def elabFields (O : Oracles) (tm : TypeMap) (sc : Scope) (future : Bool) :
@@ -701,14 +702,53 @@ def defaultsOf : List (String × FieldRes) → List (String × PyVal)
 /-- `_required`: fields without default that are neither typing-optional nor listed in `_optional` -/
 def requiredOf : List (String × FieldRes) → List String
   | [] => []
-  | (n, .field _ true _) :: rest => n :: requiredOf rest
+  | (n, .field _ true none) :: rest => n :: requiredOf rest
   | _ :: rest => requiredOf rest
+
+/-- `_required` given explicitly (`required_fields_predefined`): the listed names stay, except that a field with a
+    default is removed; nothing is added -/
+def explicitReq (R : List String) : List (String × FieldRes) → List String
+  | [] => []
+  | (n, .field _ _ none) :: rest => if R.contains n then n :: explicitReq R rest else explicitReq R rest
+  | _ :: rest => explicitReq R rest
+
+def isField : FieldRes → Bool
+  | .field _ _ _ => true
+  | .dropped => false
+
+/-- the name is one of the class's fields (a dropped annotation declares none) -/
+def isFieldName (rs : List (String × FieldRes)) (n : String) : Bool := rs.any (fun p => p.1 == n && isField p.2)
+
+/-- a name listed in `_optional` AND in the explicit `_required` whose declaration declares no field at all is never
+    taken out of `_required`: refused as well -/
+def conflictDropped (R optNames : List String) (rs : List (String × FieldRes)) : Bool :=
+  rs.any (fun p => !isField p.2 && optNames.contains p.1 && R.contains p.1)
+
+/-- "optional cannot override prior required": a name that is optional (listed in `_optional`, or annotated with a
+    typing union with a None member), has no default, and is listed in the explicit `_required` -/
+def conflictOpt (R : List String) : List (String × FieldRes) → Bool
+  | [] => false
+  | (n, .field _ false none) :: rest => R.contains n || conflictOpt R rest
+  | _ :: rest => conflictOpt R rest
+
+def classOfReq (req : List String) (rs : List (String × FieldRes)) : FieldDecl :=
+  .struct { name := "K", required := req, addl := true, accepts := ["K"] } (fieldsOf rs) (defaultsOf rs)
 
 def classOf (rs : List (String × FieldRes)) : FieldDecl :=
   .struct { name := "K", required := requiredOf rs, addl := true, accepts := ["K"] } (fieldsOf rs) (defaultsOf rs)
 
 /-- the class statement: the class declaration it creates, or the exception class it raises -/
+def finishClass (req : Option (List String)) (optNames : List String) (rs : List (String × FieldRes)) : R FieldDecl :=
+  match req with
+  | none => .ok (classOf rs)
+  | some R =>
+    if conflictOpt R rs || conflictDropped R optNames rs then .error .valueErr
+    else .ok (classOfReq (explicitReq R rs ++ R.filter (fun n => !isFieldName rs n)) rs)
+
+/-- the names listed in `_optional` -/
+def optionalNames (fields : List FieldSp) : List String := (fields.filter (·.inOptional)).map (·.name)
+
 def elabClass (O : Oracles) (tm : TypeMap) (c : ClassSp) : R FieldDecl :=
-  bindE (elabFields O tm c.scope c.future c.fields) fun rs => .ok (classOf rs)
+  bindE (elabFields O tm c.scope c.future c.fields) (finishClass c.required (optionalNames c.fields))
 
 end Typedpy.Elab
